@@ -5,6 +5,7 @@ import (
 
 	"cosmossdk.io/core/address"
 	"cosmossdk.io/core/store"
+	storetypes "cosmossdk.io/store/types"
 	"cosmossdk.io/x/nft"
 	nftkeeper "cosmossdk.io/x/nft/keeper"
 	addresscodec "github.com/cosmos/cosmos-sdk/codec/address"
@@ -13,11 +14,14 @@ import (
 	"mods.irisnet.org/modules/nft/types"
 )
 
-// core-store adapter over the sorted-slice store stub
-type vStoreService struct{ s *vStore }
-type vCoreStore struct{ s *vStore }
+// core-store adapter, as runtime.NewKVStoreService: the store is taken from the context (gas-metered, and the
+// branch's copy under a cache context)
+type vStoreService struct{ key storetypes.StoreKey }
+type vCoreStore struct{ s storetypes.KVStore }
 
-func (v vStoreService) OpenKVStore(ctx context.Context) store.KVStore { return vCoreStore{v.s} }
+func (v vStoreService) OpenKVStore(ctx context.Context) store.KVStore {
+	return vCoreStore{sdk.UnwrapSDKContext(ctx).KVStore(v.key)}
+}
 func (c vCoreStore) Get(key []byte) ([]byte, error)                   { return c.s.Get(key), nil }
 func (c vCoreStore) Has(key []byte) (bool, error)                     { return c.s.Has(key), nil }
 func (c vCoreStore) Set(key, value []byte) error                      { c.s.Set(key, value); return nil }
@@ -54,7 +58,7 @@ func newNfEnv() *nfEnv {
 	if verifChoice("creatorHoldsToken", 2) == 1 {
 		e.owner = e.creator // the class creator mints the first token to itself: owner and creator are one account
 	}
-	ss := vStoreService{e.store()}
+	ss := vStoreService{e.key}
 	e.k = Keeper{storeService: ss, cdc: e.cdc, nk: nftkeeper.NewKeeper(ss, e.cdc, nfAccount{e.acc}, e.bank)}
 	e.mintR, e.updR = verifBool("mintRestricted"), verifBool("updateRestricted")
 	_, err := e.k.IssueDenom(e.ctx, &types.MsgIssueDenom{Id: nfClass, Name: "Kitties", Schema: "", Sender: e.creator.String(), Symbol: "kit",
